@@ -11,7 +11,7 @@ CONSTANTS
   Budget = 0
   LateKinds = {"write", "promote", "release"}
   EarlyStop = FALSE
-  MaxDepth = 13
+  MaxDepth = 12
 VIEW View
 SYMMETRY Sym
 CONSTRAINT Bounded
